@@ -1,165 +1,57 @@
 package rules
 
 import (
-	"go/ast"
+	"fmt"
 	"go/token"
 	"go/types"
 	"sort"
-	"strings"
 
 	"osmcheck/core"
 )
 
-// Unexported identifiers the C04 rules are keyed on: none by name. The helpers are found by role:
-//   - "inner emitter": a function of package osm with an *xml.Encoder parameter that is not a MarshalXML method
-//     (today marshalInnerXML, marshalInnerElementsXML, marshalInnerChange);
-//   - "full body emitter": the *OSM method OSM.MarshalXML calls with its encoder (today marshalInnerXML);
-//   - "element emitter": the *OSM method Action.MarshalXML calls on a.OSM (today marshalInnerElementsXML);
-//   - "wrapper": an inner emitter whose start token takes its name from a string parameter (today marshalInnerChange).
+// Unexported identifiers the C04 rules are keyed on: none. The hand-written writers are the MarshalXML methods of
+// package osm (found through their signature) and whatever they call; the rules look at what those methods *do* with
+// the encoder under a few abstract inputs (rules/c04_model.go), not at which helper contains which statement.
 
 func init() {
 	register(&core.Property{
 		ID:    "C04",
 		Title: "XML marshal/unmarshal round-trips every object and container",
-		Explanation: "Structural necessary conditions on every hand-written XML writer of package osm (every function with an *xml.Encoder parameter): " +
-			"(X1) for each Encode / EncodeElement / EncodeToken(start) the element name encoding/xml will emit — computed by the naming model: start element given, else XMLName tag, else enclosing field tag, else the Go type name — equals the tag under which the encoded field or block is read back (or, for a forced document root, the documented root name); start tokens are closed by the End() of the same start element; " +
-			"(X2) each attr-tagged field of a type with a hand-written MarshalXML is appended to start.Attr under its tag name, from that field, guarded by a non-emptiness test exactly when the tag says omitempty, and no attribute is written that no field reads; " +
-			"(X3) the full body emitter encodes every element-tagged field of osm.OSM and is called between the start and end token of every OSM-valued block; the element emitter used for diff create actions encodes exactly the kinds Action.UnmarshalXML stores back; " +
-			"(X4) Action.MarshalXML and Action.UnmarshalXML agree on {type attribute, old, new} and the directly embedded element is only written when present; " +
-			"(X5) Date is written as text with the layout constant it is parsed with. " +
+		Explanation: "Structural necessary conditions on every hand-written XML writer of package osm (every MarshalXML method with everything it calls, explored path by path by an abstract interpreter under fixed abstract inputs; helper names, parameter and local names, statement order of independent statements, if/switch form and the file the code lives in do not matter): " +
+			"(X1) with every field set, for each Encode / EncodeElement call the element name encoding/xml will emit — computed by the naming model: start element given, else XMLName tag, else enclosing field tag, else the Go type name — equals the tag under which the receiver field being encoded is read back; the wrapper elements open around it are exactly the tags of the fields on the way to it (create/modify/delete, old/new); a forced document root name is the documented one; every start token is closed by an end token of the same name; " +
+			"(X2) each attr-tagged field of a type with a hand-written MarshalXML appears in the start token's attribute list under its tag name with the field's value: with every field set, with only that field set (so its guard tests that field and nothing else), and with only that field empty exactly when the tag does not say omitempty; no attribute is written that no field reads; " +
+			"(X3) completeness: for every element-tagged field of the marshalled type (and, for fields written as a wrapped OSM body, every element-tagged field of osm.OSM below it), when only that field is set it is encoded on every path; the elements Action writes directly are exactly the kinds Action.UnmarshalXML stores back; " +
+			"(X4) Action.MarshalXML and Action.UnmarshalXML agree on {type attribute, old, new}; marshalling an action whose directly embedded element is nil touches nothing through the nil pointer; " +
+			"(X5) Date is written as text with the layout it is parsed with; " +
+			"(X6) an element is left out only when its value is absent: whenever a single field of the value is set the element's own start token (the wrapper of a block, the element of a type with MarshalXML) is written on every path, and a nil block writes nothing and dereferences nothing. " +
 			"Types without a hand-written marshaller are written and read by the same tags and are symmetric by construction of encoding/xml (tag well-formedness is C03.T1). " +
-			"NOT decided: equality of values after the trip (time precision, float formatting, strings XML cannot represent), diff create actions holding several elements.",
-		Assumptions: []string{"go/types (x/tools v0.29.0)", "documented naming rules of encoding/xml marshalValue/defaultStart (re-implemented in rules/c03_xmlmodel.go)", "tables/osmxml.json for document root names"},
-		LevelText:   "Structural necessary conditions: every element/attribute name the hand-written XML writers emit equals the name the library's own tags (or custom decoders) read it back under, at every emission site; hand-written containers emit every field they can read. Value equality after the round trip is not decided.",
-		LevelNote:   "Trusts the type checker and the documented naming rules of encoding/xml; covers the hand-written writers of package osm (everything else is tag-driven both ways).",
-		Technique:   "type-resolved model of encoding/xml element naming applied at every emission site of the hand-written marshallers; sibling agreement between marshal and unmarshal tables",
+			"NOT decided: equality of values after the trip (time precision, float formatting, strings XML cannot represent), diff create actions holding several elements, allocated-but-empty containers.",
+		Assumptions: []string{"go/types (x/tools v0.29.0)", "documented naming rules of encoding/xml marshalValue/defaultStart (re-implemented in rules/c03_xmlmodel.go)", "the path-enumerating abstract interpreter of rules/c03_eval.go (one iteration per loop, lists built on the path unrolled, calls outside the repository opaque; Encoder calls are assumed to succeed)", "tables/osmxml.json for document root names"},
+		LevelText:   "Structural necessary conditions: every element/attribute name the hand-written XML writers emit equals the name the library's own tags (or custom decoders) read it back under, for every field, under abstract inputs that set one field at a time; hand-written containers emit every field they can read and skip an element only when its value is absent. Value equality after the round trip is not decided.",
+		LevelNote:   "Trusts the type checker, the documented naming rules of encoding/xml and the abstract interpreter's modelling of the Go statements used by the writers (anything it does not model is reported as undecided); covers the hand-written writers of package osm (everything else is tag-driven both ways).",
+		Technique:   "abstract interpretation of the hand-written marshallers over a finite set of scenarios (which fields are empty), observing the Encoder calls with symbolic arguments; type-resolved model of encoding/xml element naming applied to each observed call; sibling agreement between marshal and unmarshal observations",
 		DesignRef:   "DESIGN.md §5 C04, §3.3",
 		Rules: []*core.Rule{
-			{ID: "X1", Floor: 22, Doc: "emitted element name = name read back, at every Encode/EncodeElement/EncodeToken(start) site", Run: c04X1},
-			{ID: "X2", Floor: 11, Doc: "attributes written under their tag names, from their fields, guarded iff omitempty", Run: c04X2},
-			{ID: "X3", Floor: 12, Doc: "completeness of the OSM body emitters", Run: c04X3},
+			{ID: "X1", Floor: 18, Doc: "emitted element name = name read back for every encoded field; wrappers = tags of the enclosing fields; roots named and closed (5 roots + 8 fields + 5 blocks)", Run: c04X1},
+			{ID: "X2", Floor: 11, Doc: "attributes written under their tag names, from their fields, guarded by their own emptiness iff omitempty (11 attr-tagged fields)", Run: c04X2},
+			{ID: "X3", Floor: 50, Doc: "completeness: every element field is encoded when it alone is set (8 direct + 35 in wrapped bodies + 7 kinds of the embedded action element)", Run: c04X3},
 			{ID: "X4", Floor: 4, Doc: "Action marshal/unmarshal symmetry on type, old, new, embedded element", Run: c04X4},
-			{ID: "X5", Floor: 2, Doc: "Date: one layout constant both ways, written and read as text", Run: c04X5},
-			{ID: "X6", Floor: 3, Doc: "marshal helpers skip an element only when the value is absent", Run: c04X6},
+			{ID: "X5", Floor: 2, Doc: "Date: one layout both ways, written and read as text", Run: c04X5},
+			{ID: "X6", Floor: 14, Doc: "an element is skipped only when its value is absent; a nil block writes and dereferences nothing (4 roots + 5 blocks written, 5 blocks absent)", Run: c04X6},
 		},
-		Mutants: []core.Mutant{
-			{Name: "x6-skip-block-without-elements", File: "change.go", Find: "func marshalInnerChange(e *xml.Encoder, name string, o *OSM) error {\n\tif o == nil {", Replace: "func marshalInnerChange(e *xml.Encoder, name string, o *OSM) error {\n\tif len(o.Elements()) == 0 {", ExpectRule: "X6", ExpectConstruct: "marshalInnerChange"},
-			{Name: "change-modify-block-renamed", File: "change.go", Find: "marshalInnerChange(e, \"modify\", c.Modify)", Replace: "marshalInnerChange(e, \"modified\", c.Modify)", ExpectRule: "X1", ExpectConstruct: "c.Modify"},
-			{Name: "osm-root-renamed", File: "osm.go", Find: "start.Name.Local = \"osm\"", Replace: "start.Name.Local = \"OSM\"", ExpectRule: "X1", ExpectConstruct: "root@OSM.MarshalXML"},
-			{Name: "discussion-comment-renamed", File: "changeset.go", Find: "t := xml.StartElement{Name: xml.Name{Local: \"comment\"}}", Replace: "t := xml.StartElement{Name: xml.Name{Local: \"comments\"}}", ExpectRule: "X1", ExpectConstruct: "csd.Comments"},
-			{Name: "osm-nodes-tag-plural", File: "osm.go", Find: "Nodes     Nodes     `xml:\"node\"`", Replace: "Nodes     Nodes     `xml:\"nodes\"`", ExpectRule: "X1", ExpectConstruct: "o.Nodes"},
-			{Name: "action-old-writes-new", File: "diff.go", Find: "marshalInnerChange(e, \"old\", a.Old)", Replace: "marshalInnerChange(e, \"old\", a.New)", ExpectRule: "X1", ExpectConstruct: "a.New"},
-			{Name: "change-root-not-closed", File: "change.go", Find: "\treturn e.EncodeToken(start.End())\n}\n\nfunc marshalInnerChange", Replace: "\treturn e.EncodeToken(start)\n}\n\nfunc marshalInnerChange", ExpectRule: "X1", ExpectConstruct: "root@Change.MarshalXML"},
-			{Name: "users-encoded-by-type-name", File: "osm.go", Find: "return e.Encode(o.Users)\n}\n\nfunc (o *OSM) marshalInnerElementsXML", Replace: "return e.EncodeElement(o.Users, xml.StartElement{Name: xml.Name{Local: \"users\"}})\n}\n\nfunc (o *OSM) marshalInnerElementsXML", ExpectRule: "X1", ExpectConstruct: "o.Users"},
-			{Name: "osm-generator-guard-dropped", File: "osm.go", Find: "\tif o.Generator != \"\" {\n\t\tstart.Attr = append(start.Attr, xml.Attr{Name: xml.Name{Local: \"generator\"}, Value: o.Generator})\n\t}", Replace: "\tstart.Attr = append(start.Attr, xml.Attr{Name: xml.Name{Local: \"generator\"}, Value: o.Generator})", ExpectRule: "X2", ExpectConstruct: "OSM.Generator"},
-			{Name: "change-generator-attr-renamed", File: "change.go", Find: "xml.Name{Local: \"generator\"}", Replace: "xml.Name{Local: \"generated\"}", ExpectRule: "X2", ExpectConstruct: "Change.Generator"},
-			{Name: "change-attribution-from-license", File: "change.go", Find: "Value: c.Attribution}", Replace: "Value: c.License}", ExpectRule: "X2", ExpectConstruct: "Change.Attribution"},
-			{Name: "inner-drops-changesets", File: "osm.go", Find: "\tif err := e.Encode(o.Changesets); err != nil {\n\t\treturn err\n\t}\n\n", Replace: "", ExpectRule: "X3", ExpectConstruct: "OSM.Changesets"},
-			{Name: "elements-drop-ways", File: "osm.go", Find: "\tif err := e.Encode(o.Ways); err != nil {\n\t\treturn err\n\t}\n\n\treturn e.Encode(o.Relations)", Replace: "\treturn e.Encode(o.Relations)", ExpectRule: "X3", ExpectConstruct: "kind OSM.Ways"},
-			{Name: "change-block-elements-only", File: "change.go", Find: "if err := o.marshalInnerXML(e); err != nil {", Replace: "if err := o.marshalInnerElementsXML(e); err != nil {", ExpectRule: "X3", ExpectConstruct: "body@marshalInnerChange"},
-			{Name: "action-type-read-from-other-attr", File: "diff.go", Find: "if attr.Name.Local == \"type\" {", Replace: "if attr.Name.Local == \"kind\" {", ExpectRule: "X4", ExpectConstruct: "attr type"},
-			{Name: "action-old-new-swapped-on-read", File: "diff.go", Find: "\t\tcase \"old\":\n\t\t\ta.Old = &OSM{}\n\t\t\tif err := d.DecodeElement(a.Old, &start); err != nil {", Replace: "\t\tcase \"old\":\n\t\t\ta.New = &OSM{}\n\t\t\tif err := d.DecodeElement(a.New, &start); err != nil {", ExpectRule: "X4", ExpectConstruct: "block old"},
-			{Name: "action-element-unguarded", File: "diff.go", Find: "\tif a.OSM != nil {\n\t\tif err := a.OSM.marshalInnerElementsXML(e); err != nil {\n\t\t\treturn err\n\t\t}\n\t}", Replace: "\tif err := a.OSM.marshalInnerElementsXML(e); err != nil {\n\t\treturn err\n\t}", ExpectRule: "X4", ExpectConstruct: "embedded"},
-			{Name: "date-format-other-layout", File: "note.go", Find: "return e.EncodeElement(d.Format(dateLayout), start)", Replace: "return e.EncodeElement(d.Format(time.RFC3339), start)", ExpectRule: "X5", ExpectConstruct: "layout@Date"},
-			{Name: "date-marshalled-as-struct", File: "note.go", Find: "return e.EncodeElement(d.Format(dateLayout), start)", Replace: "_ = d.Format(dateLayout)\n\treturn e.EncodeElement(d.Time, start)", ExpectRule: "X5", ExpectConstruct: "text@Date"},
-		},
+		Mutants: c04Mutants,
+		Benign:  c04Benign,
 	})
 }
 
-// ---- collection of emission sites ---------------------------------------------------------------
-
-// c04Emitter is a function of package osm that writes XML by hand.
-type c04Emitter struct {
-	fi  *FuncInfo
-	enc *types.Var
-}
-
-func c04Emitters(p *core.Program) []*c04Emitter {
-	var out []*c04Emitter
-	for _, fi := range allFuncs(c03OsmPkg(p)) {
-		if enc := c03EncoderParam(fi); enc != nil {
-			out = append(out, &c04Emitter{fi: fi, enc: enc})
-		}
+func c04RecvTypeOf(fn *types.Func) types.Type {
+	if fn == nil {
+		return nil
 	}
-	sort.Slice(out, func(i, j int) bool { return out[i].fi.Decl.Pos() < out[j].fi.Decl.Pos() })
-	return out
-}
-
-// c04EncCall is one call of an Encoder method on the function's encoder parameter.
-type c04EncCall struct {
-	call   *ast.CallExpr
-	method string
-}
-
-func c04EncCalls(em *c04Emitter) []c04EncCall {
-	info := em.fi.Pkg.TypesInfo
-	var out []c04EncCall
-	ast.Inspect(em.fi.Decl.Body, func(n ast.Node) bool {
-		call, ok := n.(*ast.CallExpr)
-		if !ok {
-			return true
-		}
-		fn := callee(info, call)
-		if fn == nil || namedPath(recvTypeOf(fn)) != "encoding/xml.Encoder" {
-			return true
-		}
-		sel, ok := ast.Unparen(call.Fun).(*ast.SelectorExpr)
-		if !ok || objOf(info, sel.X) != em.enc {
-			return true
-		}
-		out = append(out, c04EncCall{call: call, method: fn.Name()})
-		return true
-	})
-	return out
-}
-
-func recvTypeOf(fn *types.Func) types.Type {
 	if r := fn.Type().(*types.Signature).Recv(); r != nil {
 		return r.Type()
 	}
 	return nil
-}
-
-// c04ReadBack returns the XML view of the field selected by expression v (recv.F), and the owner type.
-func c04ReadBack(info *types.Info, v ast.Expr) (*c03Field, types.Type) {
-	f := fieldOf(info, v)
-	if f == nil {
-		return nil, nil
-	}
-	sel := ast.Unparen(v).(*ast.SelectorExpr)
-	owner := c03Deref(info.TypeOf(sel.X))
-	ti := c03XMLTypeInfo(owner)
-	if ti == nil {
-		return nil, owner
-	}
-	return ti.FieldOf(f), owner
-}
-
-// c04EndOf reports whether e is `X.End()` of a StartElement and returns X's object.
-func c04EndOf(info *types.Info, e ast.Expr) (types.Object, bool) {
-	call, ok := ast.Unparen(e).(*ast.CallExpr)
-	if !ok || !isMethod(callee(info, call), "encoding/xml.StartElement", "End") {
-		return nil, false
-	}
-	sel, ok := ast.Unparen(call.Fun).(*ast.SelectorExpr)
-	if !ok {
-		return nil, true
-	}
-	return objOf(info, sel.X), true
-}
-
-// c04Closed: after call, the function emits EncodeToken(v.End()) for the start element variable v.
-func c04Closed(em *c04Emitter, after token.Pos, v types.Object) bool {
-	info := em.fi.Pkg.TypesInfo
-	for _, ec := range c04EncCalls(em) {
-		if ec.method != "EncodeToken" || len(ec.call.Args) != 1 || ec.call.Pos() < after {
-			continue
-		}
-		if o, isEnd := c04EndOf(info, ec.call.Args[0]); isEnd && o != nil && o == v {
-			return true
-		}
-	}
-	return false
 }
 
 // c04FieldsOfType lists the element fields, in structs of package osm marshalled by the default rules
@@ -186,855 +78,89 @@ func c04FieldsOfType(p *core.Program, t types.Type) []string {
 	return out
 }
 
-// ---- X1 --------------------------------------------------------------------------------------
+// c04Verdicts collects one verdict per construct: violated beats undecided beats discharged.
+type c04Verdicts struct {
+	order []string
+	m     map[string]*c04Verdict
+}
 
-func c04X1(r *core.R) {
-	c03Init(r)
-	tbl, terr := c03LoadTable()
-	if terr != nil {
-		r.Anchor("tables/osmxml.json: " + terr.Error())
+type c04Verdict struct {
+	status string
+	pos    token.Pos
+	msg    string
+}
+
+func (v *c04Verdicts) put(status, construct string, pos token.Pos, format string, args ...interface{}) {
+	if v.m == nil {
+		v.m = map[string]*c04Verdict{}
+	}
+	rank := map[string]int{core.Discharged: 0, core.Undecided: 1, core.Violated: 2}
+	cur := v.m[construct]
+	if cur == nil {
+		v.order = append(v.order, construct)
+		v.m[construct] = &c04Verdict{status, pos, fmt.Sprintf(format, args...)}
 		return
 	}
-	ems := c04Emitters(r.P)
-	if len(ems) == 0 {
-		r.Anchor("functions of package osm with an *xml.Encoder parameter")
-		return
-	}
-	r.Stat("xml_emitter_functions", len(ems))
-	for _, em := range ems {
-		fi := em.fi
-		info := fi.Pkg.TypesInfo
-		name := strings.NewReplacer("(*", "", ")", "").Replace(fi.Name())
-		for _, ec := range c04EncCalls(em) {
-			switch ec.method {
-			case "Encode", "EncodeElement":
-				v := ec.call.Args[0]
-				c := "emit@" + name + " " + src(r.P.Fset, v)
-				tmpl := ""
-				if ec.method == "EncodeElement" {
-					sn := c03ResolveStart(fi, ec.call.Args[1])
-					switch sn.Kind {
-					case "const":
-						tmpl = sn.Const
-					case "pass":
-						r.OK(c, ec.call.Pos(), "encoded under the start element handed to %s, unrenamed: the caller (encoding/xml's field marshaller) supplies the name of the very field that is read back", name)
-						continue
-					default:
-						r.Unknown(c, ec.call.Pos(), "cannot resolve the element name of `%s`: %s", src(r.P.Fset, ec.call.Args[1]), sn.Why)
-						continue
-					}
-				}
-				xf, owner := c04ReadBack(info, v)
-				if xf == nil {
-					if owner != nil {
-						r.Bad(c, ec.call.Pos(), "`%s` writes a field of %s that has no xml element tag: nothing reads it back", src(r.P.Fset, ec.call), c03Short(owner))
-					} else {
-						r.Unknown(c, ec.call.Pos(), "encoded value `%s` is not a struct field selection; accepted: recv.Field", src(r.P.Fset, v))
-					}
-					continue
-				}
-				if xf.Kind != c03Elem || len(xf.Parents) > 0 {
-					r.Unknown(c, ec.call.Pos(), "field %s is read back as `%s`: only plain element tags are enumerated", xf.Var.Name(), c03TagOf(xf))
-					continue
-				}
-				bad := false
-				var whys []string
-				for _, en := range c03EmittedNames(r.P, info.TypeOf(v), tmpl, "") {
-					switch {
-					case en.Err != "":
-						r.Unknown(c, ec.call.Pos(), "%s", en.Err)
-						bad = true
-					case en.Name != xf.Name:
-						r.Bad(c, ec.call.Pos(), "`%s` emits <%s> (%s) but %s.%s is read back from <%s> (tag `%s`): xml.Unmarshal of the written document leaves the field empty (the streaming scanner matches names case-insensitively, so at best the two decoders disagree)",
-							src(r.P.Fset, ec.call), en.Name, en.Why, c03Short(owner), xf.Var.Name(), xf.Name, c03TagOf(xf))
-						bad = true
-					default:
-						whys = append(whys, en.Why)
-					}
-				}
-				if !bad {
-					r.OK(c, ec.call.Pos(), "emits <%s> (%s) = tag of %s.%s", xf.Name, strings.Join(whys, "; "), c03Short(owner), xf.Var.Name())
-				}
-			case "EncodeToken":
-				arg := ec.call.Args[0]
-				if _, isEnd := c04EndOf(info, arg); isEnd {
-					continue // paired with its start token below
-				}
-				if namedPath(info.TypeOf(arg)) != "encoding/xml.StartElement" {
-					r.Unknown("token@"+name+" "+src(r.P.Fset, arg), ec.call.Pos(), "token of type %s written by hand: not enumerated", c03Short(info.TypeOf(arg)))
-					continue
-				}
-				sn := c03ResolveStart(fi, arg)
-				closed := sn.Var != nil && c04Closed(em, ec.call.End(), sn.Var)
-				switch sn.Kind {
-				case "const":
-					c := "root@" + name
-					if fi.Obj.Name() != "MarshalXML" {
-						r.Unknown(c, ec.call.Pos(), "constant start token <%s> written by a helper: not enumerated", sn.Const)
-						continue
-					}
-					rt := c03Deref(c03Receiver(fi).Type())
-					tt := tbl.Type(c03TypeName(rt))
-					nested := c04FieldsOfType(r.P, rt)
-					var badNested []string
-					for _, nf := range nested {
-						if !strings.HasSuffix(nf, "="+sn.Const) {
-							badNested = append(badNested, nf)
-						}
-					}
-					ti := c03XMLTypeInfo(rt)
-					switch {
-					case !closed:
-						r.Bad(c, ec.call.Pos(), "the <%s> start token is never closed by EncodeToken(%s.End()): Marshal fails or emits unbalanced XML", sn.Const, sn.Var.Name())
-					case tt == nil:
-						r.Unknown(c, ec.call.Pos(), "%s forces the element name %q but the type is not in tables/osmxml.json", name, sn.Const)
-					case tt.Element != sn.Const:
-						r.Bad(c, ec.call.Pos(), "%s forces the element name <%s>; the documented element for %s is <%s> (%s)", name, sn.Const, c03TypeName(rt), tt.Element, tt.Doc)
-					case ti != nil && ti.XMLName != nil && ti.XMLName.Name != "" && ti.XMLName.Name != sn.Const:
-						r.Bad(c, ec.call.Pos(), "%s forces <%s> but %s.XMLName expects <%s> on unmarshalling", name, sn.Const, c03TypeName(rt), ti.XMLName.Name)
-					case len(badNested) > 0:
-						r.Bad(c, ec.call.Pos(), "%s forces <%s> wherever the value is marshalled, but tag-decoded field(s) %s read it under another name", name, sn.Const, strings.Join(badNested, ", "))
-					default:
-						r.OK(c, ec.call.Pos(), "forces <%s> = documented element of %s; closed by %s.End(); no tag-marshalled struct holds a %s under another name (%d holder(s))", sn.Const, c03TypeName(rt), sn.Var.Name(), c03TypeName(rt), len(nested))
-					}
-				case "pass":
-					c := "start@" + name
-					if !closed {
-						r.Bad(c, ec.call.Pos(), "the start token handed to %s is written but never closed by EncodeToken(%s.End())", name, sn.Var.Name())
-					} else {
-						r.OK(c, ec.call.Pos(), "writes the start element it was handed, unrenamed (the field marshaller supplies the tag the field is read back under), and closes it with %s.End()", sn.Var.Name())
-					}
-				case "param":
-					c := "wrap@" + name
-					if !closed {
-						r.Bad(c, ec.call.Pos(), "wrapper start token <%s> is never closed by EncodeToken(%s.End())", sn.Param.Name(), c04VarName(sn.Var))
-						continue
-					}
-					r.OK(c, ec.call.Pos(), "wrapper element named by parameter %s, closed by %s.End(); each call site is checked below", sn.Param.Name(), c04VarName(sn.Var))
-					c04WrapperCallSites(r, em, sn.Param)
-				default:
-					r.Unknown("token@"+name+" "+src(r.P.Fset, arg), ec.call.Pos(), "cannot resolve the element name of start token `%s`: %s", src(r.P.Fset, arg), sn.Why)
-				}
-			}
-		}
+	if rank[status] > rank[cur.status] {
+		*cur = c04Verdict{status, pos, fmt.Sprintf(format, args...)}
 	}
 }
 
-func c04VarName(o types.Object) string {
-	if o == nil {
-		return "?"
-	}
-	return o.Name()
+func (v *c04Verdicts) ok(c string, pos token.Pos, f string, a ...interface{}) {
+	v.put(core.Discharged, c, pos, f, a...)
+}
+func (v *c04Verdicts) bad(c string, pos token.Pos, f string, a ...interface{}) {
+	v.put(core.Violated, c, pos, f, a...)
+}
+func (v *c04Verdicts) unknown(c string, pos token.Pos, f string, a ...interface{}) {
+	v.put(core.Undecided, c, pos, f, a...)
 }
 
-// c04WrapCall is one call of a wrapper helper: the constant block name and the field written under it.
-type c04WrapCall struct {
-	caller *FuncInfo
-	call   *ast.CallExpr
-	name   string
-	nameOK bool
-	field  ast.Expr // the struct-field argument (nil when none)
-}
-
-// c04WrapperCalls lists the calls of wrapper em (whose element name is parameter nameParam) in package osm.
-func c04WrapperCalls(p *core.Program, em *c04Emitter, nameParam types.Object) []c04WrapCall {
-	idx := c03ParamIndex(em.fi, nameParam)
-	var out []c04WrapCall
-	for _, caller := range allFuncs(c03OsmPkg(p)) {
-		info := caller.Pkg.TypesInfo
-		ast.Inspect(caller.Decl.Body, func(n ast.Node) bool {
-			call, ok := n.(*ast.CallExpr)
-			if !ok || callee(info, call) != em.fi.Obj || idx < 0 || idx >= len(call.Args) {
-				return true
-			}
-			wc := c04WrapCall{caller: caller, call: call}
-			wc.name, wc.nameOK = constString(info, call.Args[idx])
-			for i, a := range call.Args {
-				if i != idx && fieldOf(info, a) != nil {
-					wc.field = a
-				}
-			}
-			out = append(out, wc)
-			return true
-		})
-	}
-	return out
-}
-
-func c04WrapperCallSites(r *core.R, em *c04Emitter, nameParam types.Object) {
-	calls := c04WrapperCalls(r.P, em, nameParam)
-	if len(calls) == 0 {
-		r.Unknown("block@"+em.fi.Name(), em.fi.Decl.Pos(), "wrapper %s has no caller in package osm", em.fi.Name())
-	}
-	for _, wc := range calls {
-		info := wc.caller.Pkg.TypesInfo
-		cname := strings.NewReplacer("(*", "", ")", "").Replace(wc.caller.Name())
-		if wc.field == nil {
-			r.Unknown("block@"+cname+" "+src(r.P.Fset, wc.call), wc.call.Pos(), "no struct field among the arguments of `%s`", src(r.P.Fset, wc.call))
-			continue
-		}
-		c := "block@" + cname + " " + src(r.P.Fset, wc.field)
-		if !wc.nameOK {
-			r.Unknown(c, wc.call.Pos(), "block name is not a constant in `%s`", src(r.P.Fset, wc.call))
-			continue
-		}
-		xf, owner := c04ReadBack(info, wc.field)
-		switch {
-		case xf == nil || xf.Kind != c03Elem:
-			r.Bad(c, wc.call.Pos(), "`%s` writes a <%s> block from a field that has no xml element tag: nothing reads it back", src(r.P.Fset, wc.call), wc.name)
-		case xf.Path() != wc.name:
-			r.Bad(c, wc.call.Pos(), "`%s` writes %s.%s inside <%s> but the field is read back from <%s> (tag `%s`): the block is lost on unmarshalling", src(r.P.Fset, wc.call), c03Short(owner), xf.Var.Name(), wc.name, xf.Path(), c03TagOf(xf))
+func (v *c04Verdicts) emit(r *core.R) {
+	for _, c := range v.order {
+		x := v.m[c]
+		switch x.status {
+		case core.Discharged:
+			r.OK(c, x.pos, "%s", x.msg)
+		case core.Violated:
+			r.Bad(c, x.pos, "%s", x.msg)
 		default:
-			r.OK(c, wc.call.Pos(), "block <%s> = tag of %s.%s", wc.name, c03Short(owner), xf.Var.Name())
+			r.Unknown(c, x.pos, "%s", x.msg)
 		}
 	}
 }
 
-// ---- X2 --------------------------------------------------------------------------------------
-
-// c04AttrWrite is one `start.Attr = append(start.Attr, xml.Attr{Name: xml.Name{Local: C}, Value: V})`.
-type c04AttrWrite struct {
-	name    string
-	value   ast.Expr
-	stmt    *ast.AssignStmt
-	guard   *ast.IfStmt // innermost enclosing if, nil when unconditional
-	nameOK  bool
-	toStart bool
-}
-
-func c04AttrWrites(r *core.R, fi *FuncInfo) []c04AttrWrite {
-	info := fi.Pkg.TypesInfo
-	par := parentsOf(r.P, fi)
-	sig := fi.Obj.Type().(*types.Signature)
-	var start types.Object
-	if sig.Params().Len() == 2 {
-		start = sig.Params().At(1)
+// rootTokens returns the start tokens written at depth 0.
+func (tr *c04Trace) rootTokens() []c04Token {
+	var out []c04Token
+	for _, t := range tr.tokens {
+		if t.start && t.depth == 0 {
+			out = append(out, t)
+		}
 	}
-	var out []c04AttrWrite
-	ast.Inspect(fi.Decl.Body, func(n ast.Node) bool {
-		as, ok := n.(*ast.AssignStmt)
-		if !ok || len(as.Lhs) != 1 || len(as.Rhs) != 1 {
-			return true
-		}
-		call, ok := ast.Unparen(as.Rhs[0]).(*ast.CallExpr)
-		if !ok || builtinName(info, call) != "append" || len(call.Args) < 2 {
-			return true
-		}
-		if rootObj(info, as.Lhs[0]) != start || c03SelPath(as.Lhs[0]) != "Attr" {
-			return true
-		}
-		for _, a := range call.Args[1:] {
-			cl, ok := ast.Unparen(a).(*ast.CompositeLit)
-			if !ok || namedPath(info.TypeOf(cl)) != "encoding/xml.Attr" {
-				out = append(out, c04AttrWrite{stmt: as})
-				continue
-			}
-			aw := c04AttrWrite{stmt: as, toStart: sameExpr(info, as.Lhs[0], call.Args[0])}
-			for i, el := range cl.Elts {
-				var key string
-				val := el
-				if kv, ok := el.(*ast.KeyValueExpr); ok {
-					if k, _ := kv.Key.(*ast.Ident); k != nil {
-						key = k.Name
-					}
-					val = kv.Value
-				} else {
-					key = []string{"Name", "Value"}[min(i, 1)]
-				}
-				switch key {
-				case "Name":
-					aw.name, aw.nameOK = c03NameLit(info, val)
-				case "Value":
-					aw.value = val
-				}
-			}
-			if ifs, _ := enclosing(par, as, func(n ast.Node) bool { _, ok := n.(*ast.IfStmt); return ok }).(*ast.IfStmt); ifs != nil && ifs.Body.Pos() <= as.Pos() && as.End() <= ifs.Body.End() {
-				aw.guard = ifs
-			}
-			out = append(out, aw)
-		}
-		return true
-	})
 	return out
 }
 
-// c04NonEmptyTest reports whether cond is a non-emptiness test of recv.F: F != "" / F != 0 / F != nil / len(F) > 0 / len(F) != 0.
-func c04NonEmptyTest(info *types.Info, cond ast.Expr, recv types.Object, f *types.Var) bool {
-	be, ok := ast.Unparen(cond).(*ast.BinaryExpr)
-	if !ok {
+// wrappersOf returns the names of the wrappers open around an emission, below the root element.
+func (tr *c04Trace) wrappersOf(em c04Emit) []c04Name {
+	if len(em.open) == 0 {
+		return nil
+	}
+	return em.open[1:]
+}
+
+func c04Explored(v *c04Verdicts, root *c04Root, trs []*c04Trace, aborted string) bool {
+	if aborted != "" {
+		v.unknown("explore@"+root.name, root.fi.Decl.Pos(), "%s could not be explored completely: %s", root.name, aborted)
 		return false
 	}
-	isF := func(e ast.Expr) bool { return fieldOf(info, e) == f && rootObj(info, e) == recv }
-	isZero := func(e ast.Expr) bool {
-		if id, ok := ast.Unparen(e).(*ast.Ident); ok && id.Name == "nil" {
-			return true
-		}
-		if v, ok := constString(info, e); ok {
-			return v == ""
-		}
-		if v, ok := constInt(info, e); ok {
-			return v == 0
-		}
-		return false
-	}
-	switch be.Op {
-	case token.NEQ:
-		if (isF(be.X) && isZero(be.Y)) || (isF(be.Y) && isZero(be.X)) {
-			return true
-		}
-		if a := lenCallArg(info, be.X); a != nil && isF(a) && isZero(be.Y) {
-			return true
-		}
-	case token.GTR:
-		if a := lenCallArg(info, be.X); a != nil && isF(a) && isZero(be.Y) {
-			return true
+	for _, tr := range trs {
+		if tr.path.End == "stuck" {
+			v.unknown("explore@"+root.name, tr.path.Pos, "%s contains a statement the analysis does not model: %s", root.name, tr.path.Why)
+			return false
 		}
 	}
-	return false
-}
-
-func c04X2(r *core.R) {
-	c03Init(r)
-	n := 0
-	for _, em := range c04Emitters(r.P) {
-		fi := em.fi
-		if fi.Obj.Name() != "MarshalXML" {
-			continue
-		}
-		info := fi.Pkg.TypesInfo
-		recv := c03Receiver(fi)
-		rt := c03Deref(recv.Type())
-		ti := c03XMLTypeInfo(rt)
-		if ti == nil {
-			continue
-		}
-		tname := c03TypeName(rt)
-		writes := c04AttrWrites(r, fi)
-		used := map[int]bool{}
-		for _, f := range ti.Fields {
-			if f.Kind != c03Attr || len(f.Via) > 0 {
-				continue
-			}
-			n++
-			c := "attr@" + tname + "." + f.Var.Name()
-			var hit *c04AttrWrite
-			for i := range writes {
-				if writes[i].nameOK && writes[i].name == f.Name {
-					hit = &writes[i]
-					used[i] = true
-				}
-			}
-			if hit == nil {
-				// a write from this field under another name?
-				other := ""
-				for i := range writes {
-					if writes[i].value != nil && usesField(info, writes[i].value, f.Var) && !used[i] {
-						other = writes[i].name
-					}
-				}
-				if other != "" {
-					r.Bad(c, fi.Decl.Pos(), "%s.%s is read from attribute %q (tag `%s`) but %s.MarshalXML writes it as attribute %q", tname, f.Var.Name(), f.Name, c03TagOf(f), tname, other)
-				} else {
-					r.Bad(c, fi.Decl.Pos(), "%s.%s is read from attribute %q (tag `%s`) but %s.MarshalXML never appends an attribute of that name to the start element: the value is lost on marshalling", tname, f.Var.Name(), f.Name, c03TagOf(f), tname)
-				}
-				continue
-			}
-			pos := hit.stmt.Pos()
-			switch {
-			case !hit.toStart:
-				r.Unknown(c, pos, "`%s` is not of the form start.Attr = append(start.Attr, ...)", src(r.P.Fset, hit.stmt))
-			case hit.value == nil || !usesField(info, hit.value, f.Var) || rootObj(info, c04FieldSel(info, hit.value, f.Var)) != recv:
-				r.Bad(c, pos, "attribute %q is written from `%s`, not from %s.%s which is the field that reads it back", f.Name, src(r.P.Fset, hit.value), tname, f.Var.Name())
-			default:
-				guarded := hit.guard != nil && c04NonEmptyTest(info, hit.guard.Cond, recv, f.Var)
-				switch {
-				case hit.guard != nil && !guarded:
-					r.Unknown(c, pos, "attribute %q is written under `if %s`, which is not a non-emptiness test of %s.%s", f.Name, src(r.P.Fset, hit.guard.Cond), tname, f.Var.Name())
-				case f.OmitEmpty && !guarded:
-					r.Bad(c, pos, "the tag of %s.%s says `%s` (omitempty) but MarshalXML writes %s=\"\" unconditionally: an empty value produces an attribute the tag contract (and every tag-driven writer of the same data) omits", tname, f.Var.Name(), c03TagOf(f), f.Name)
-				case !f.OmitEmpty && guarded:
-					r.Bad(c, pos, "the tag of %s.%s is `%s` (no omitempty) but MarshalXML drops the attribute when the field is empty: hand-written and tag-driven output disagree for the zero value", tname, f.Var.Name(), c03TagOf(f))
-				default:
-					g := "unconditionally (no omitempty)"
-					if guarded {
-						g = "under `if " + src(r.P.Fset, hit.guard.Cond) + "` (omitempty)"
-					}
-					r.OK(c, pos, "written as attribute %q from %s.%s %s", f.Name, tname, f.Var.Name(), g)
-				}
-			}
-		}
-		for i, w := range writes {
-			if used[i] {
-				continue
-			}
-			c := "attr@" + tname + " " + w.name
-			if !w.nameOK {
-				r.Unknown(c, w.stmt.Pos(), "`%s`: attribute appended with a non-constant name or not as an xml.Attr literal", src(r.P.Fset, w.stmt))
-				continue
-			}
-			r.Bad(c, w.stmt.Pos(), "%s.MarshalXML writes attribute %q but no field of %s is tagged `%s,attr`: it cannot be read back", tname, w.name, tname, w.name)
-		}
-	}
-	r.Stat("attr_tagged_fields_of_custom_marshallers", n)
-}
-
-// c04FieldSel returns the selector expression inside e that selects field f.
-func c04FieldSel(info *types.Info, e ast.Expr, f *types.Var) ast.Expr {
-	var res ast.Expr
-	ast.Inspect(e, func(n ast.Node) bool {
-		if sel, ok := n.(*ast.SelectorExpr); ok && res == nil {
-			if s := info.Selections[sel]; s != nil && s.Obj() == f {
-				res = sel
-			}
-		}
-		return res == nil
-	})
-	if res == nil {
-		return e
-	}
-	return res
-}
-
-// ---- X3 --------------------------------------------------------------------------------------
-
-// c04CalleeOn returns the emitter method of package osm that fi calls with its encoder on an OSM-typed
-// receiver expression satisfying pred.
-func c04InnerCalls(p *core.Program, fi *FuncInfo) []struct {
-	call *ast.CallExpr
-	fn   *FuncInfo
-	recv ast.Expr
-} {
-	info := fi.Pkg.TypesInfo
-	enc := c03EncoderParam(fi)
-	var out []struct {
-		call *ast.CallExpr
-		fn   *FuncInfo
-		recv ast.Expr
-	}
-	ast.Inspect(fi.Decl.Body, func(n ast.Node) bool {
-		call, ok := n.(*ast.CallExpr)
-		if !ok {
-			return true
-		}
-		fn := callee(info, call)
-		if fn == nil || fn.Pkg() != fi.Obj.Pkg() || fn.Type().(*types.Signature).Recv() == nil {
-			return true
-		}
-		passes := false
-		for _, a := range call.Args {
-			if objOf(info, a) == enc {
-				passes = true
-			}
-		}
-		sel, ok := ast.Unparen(call.Fun).(*ast.SelectorExpr)
-		if !passes || !ok {
-			return true
-		}
-		if ci := c03FuncInfoOf(p, fn); ci != nil {
-			out = append(out, struct {
-				call *ast.CallExpr
-				fn   *FuncInfo
-				recv ast.Expr
-			}{call, ci, sel.X})
-		}
-		return true
-	})
-	return out
-}
-
-// c04EncodedFields returns the fields of the receiver that emitter fi encodes (Encode/EncodeElement).
-func c04EncodedFields(fi *FuncInfo) map[*types.Var]token.Pos {
-	info := fi.Pkg.TypesInfo
-	out := map[*types.Var]token.Pos{}
-	enc := c03EncoderParam(fi)
-	if enc == nil {
-		return out
-	}
-	recv := c03Receiver(fi)
-	for _, ec := range c04EncCalls(&c04Emitter{fi: fi, enc: enc}) {
-		if ec.method != "Encode" && ec.method != "EncodeElement" {
-			continue
-		}
-		if f := fieldOf(info, ec.call.Args[0]); f != nil && rootObj(info, ec.call.Args[0]) == recv {
-			out[f] = ec.call.Pos()
-		}
-	}
-	return out
-}
-
-// c04Roles finds the full body emitter and the element emitter by role.
-func c04Roles(r *core.R) (full, elems *FuncInfo, osmNT *types.Named) {
-	pk := c03OsmPkg(r.P)
-	osmNT, _ = structType(pk, "OSM")
-	om := findFunc(pk, "OSM.MarshalXML")
-	am := findFunc(pk, "Action.MarshalXML")
-	if osmNT == nil || om == nil || am == nil {
-		r.Anchor("osm.OSM, OSM.MarshalXML, Action.MarshalXML")
-		return nil, nil, nil
-	}
-	for _, ic := range c04InnerCalls(r.P, om) {
-		if objOf(pk.TypesInfo, ic.recv) == c03Receiver(om) {
-			full = ic.fn
-		}
-	}
-	actRecv := c03Receiver(am)
-	for _, ic := range c04InnerCalls(r.P, am) {
-		if f := fieldOf(pk.TypesInfo, ic.recv); f != nil && f.Embedded() && rootObj(pk.TypesInfo, ic.recv) == actRecv {
-			elems = ic.fn
-		}
-	}
-	if full == nil {
-		r.Anchor("the *OSM method OSM.MarshalXML calls with its encoder (full body emitter)")
-	}
-	if elems == nil {
-		r.Anchor("the *OSM method Action.MarshalXML calls on its embedded OSM (element emitter)")
-	}
-	return
-}
-
-func c04X3(r *core.R) {
-	c03Init(r)
-	full, elems, osmNT := c04Roles(r)
-	if osmNT == nil {
-		return
-	}
-	pk := c03OsmPkg(r.P)
-	osmTI := c03XMLTypeInfo(osmNT)
-	if full != nil {
-		enc := c04EncodedFields(full)
-		fname := strings.NewReplacer("(*", "", ")", "").Replace(full.Name())
-		for _, f := range osmTI.Fields {
-			if f.Kind != c03Elem {
-				continue
-			}
-			c := "complete@" + fname + " OSM." + f.Var.Name()
-			if pos, ok := enc[f.Var]; ok {
-				r.OK(c, pos, "element field OSM.%s (<%s>) is encoded", f.Var.Name(), f.Name)
-			} else {
-				r.Bad(c, full.Decl.Pos(), "%s never encodes OSM.%s although the decoder reads <%s> into it: marshalling an OSM (document, osmChange block, diff old/new) drops every %s", fname, f.Var.Name(), f.Name, f.Name)
-			}
-		}
-		// every OSM-valued block body is produced by the full emitter, between start and end token
-		for _, em := range c04Emitters(r.P) {
-			fi := em.fi
-			if fi.Obj == full.Obj || (elems != nil && fi.Obj == elems.Obj) {
-				continue
-			}
-			var starts []*ast.CallExpr
-			for _, ec := range c04EncCalls(em) {
-				if ec.method == "EncodeToken" && namedPath(fi.Pkg.TypesInfo.TypeOf(ec.call.Args[0])) == "encoding/xml.StartElement" {
-					starts = append(starts, ec.call)
-				}
-			}
-			if len(starts) != 1 {
-				continue
-			}
-			// does the function own an OSM value to write? (receiver of type OSM, or an *OSM parameter)
-			owns := c04OwnsOSM(fi, osmNT)
-			if owns == nil {
-				continue
-			}
-			nm := strings.NewReplacer("(*", "", ")", "").Replace(fi.Name())
-			c := "body@" + nm
-			okBody := false
-			var other *FuncInfo
-			for _, ic := range c04InnerCalls(r.P, fi) {
-				if objOf(fi.Pkg.TypesInfo, ic.recv) != owns || ic.call.Pos() < starts[0].End() {
-					continue
-				}
-				if ic.fn.Obj == full.Obj {
-					okBody = true
-				} else {
-					other = ic.fn
-				}
-			}
-			switch {
-			case okBody:
-				r.OK(c, starts[0].Pos(), "the body of the %s element is written by %s (all element fields of OSM) after the start token", src(r.P.Fset, starts[0].Args[0]), fname)
-			case other != nil:
-				r.Bad(c, starts[0].Pos(), "%s writes the OSM body through %s, which does not encode every element field of OSM (%s does): bounds/changesets/notes/users of the block are dropped", nm, other.Name(), fname)
-			default:
-				r.Bad(c, starts[0].Pos(), "%s writes start and end token but never the body of its OSM value (%s)", nm, fname)
-			}
-		}
-	}
-	if elems != nil {
-		un := findFunc(pk, "(*Action).UnmarshalXML")
-		actNT, _ := structType(pk, "Action")
-		if un == nil || actNT == nil {
-			r.Anchor("osm.(*Action).UnmarshalXML")
-			return
-		}
-		read := c04ActionReads(r, un, actNT, osmNT)
-		written := c04EncodedFields(elems)
-		names := map[string]bool{}
-		for f := range written {
-			names[f.Name()] = true
-		}
-		for p := range read {
-			if strings.HasPrefix(p, "OSM.") {
-				names[strings.TrimPrefix(p, "OSM.")] = true
-			}
-		}
-		ename := strings.NewReplacer("(*", "", ")", "").Replace(elems.Name())
-		for _, n := range c03SortedKeys(names) {
-			c := "kind OSM." + n + "@" + ename
-			_, rd := read["OSM."+n]
-			wr := false
-			for f := range written {
-				if f.Name() == n {
-					wr = true
-				}
-			}
-			switch {
-			case rd && wr:
-				r.OK(c, elems.Decl.Pos(), "written by %s for a create action and stored back by Action.UnmarshalXML case %q", ename, read["OSM."+n])
-			case wr:
-				r.Bad(c, elems.Decl.Pos(), "%s writes OSM.%s directly inside <action> but Action.UnmarshalXML has no case storing into it: the element is lost on unmarshalling", ename, n)
-			default:
-				r.Bad(c, elems.Decl.Pos(), "Action.UnmarshalXML case %q stores into OSM.%s but %s never writes it: a create action holding it marshals to an empty <action>", read["OSM."+n], n, ename)
-			}
-		}
-	}
-}
-
-// c04OwnsOSM returns the receiver or parameter of fi whose type is (a pointer to) osm.OSM.
-func c04OwnsOSM(fi *FuncInfo, osmNT *types.Named) types.Object {
-	sig := fi.Obj.Type().(*types.Signature)
-	if rv := sig.Recv(); rv != nil && types.Identical(c03Deref(rv.Type()), osmNT) {
-		return rv
-	}
-	for i := 0; i < sig.Params().Len(); i++ {
-		if types.Identical(c03Deref(sig.Params().At(i).Type()), osmNT) {
-			return sig.Params().At(i)
-		}
-	}
-	return nil
-}
-
-// c04ActionReads maps the Go path (below Action) each case of Action.UnmarshalXML stores into -> case label.
-func c04ActionReads(r *core.R, un *FuncInfo, actNT, osmNT *types.Named) map[string]string {
-	out := map[string]string{}
-	info := un.Pkg.TypesInfo
-	tl := c03FindTokenLoop(r, un)
-	if tl == nil {
-		return out
-	}
-	actTI, osmTI := c03XMLTypeInfo(actNT), c03XMLTypeInfo(osmNT)
-	for _, sw := range c03StringSwitches(info, tl.For.Body) {
-		if ok, _ := c03SwitchOnStartName(info, sw.Stmt.Tag, tl.StartVar); !ok {
-			continue
-		}
-		for _, cs := range sw.Cases {
-			dcs := c03DecodeCalls(info, cs.Clause)
-			if len(dcs) != 1 {
-				continue
-			}
-			if p, why := c03ActionCaseTarget(info, cs, dcs[0], c03Receiver(un), actTI, osmTI, osmNT); why == "" {
-				out[p] = cs.Label
-			} else if dcs[0].TObj == c03Receiver(un) {
-				// record the raw field even when the tag disagrees, for the symmetry rule
-				if f := fieldOf(info, dcs[0].Target); f != nil {
-					out["!"+f.Name()] = cs.Label
-				}
-			}
-		}
-	}
-	return out
-}
-
-// ---- X4 --------------------------------------------------------------------------------------
-
-// c04AttrReads lists (attribute name -> receiver field) pairs read in an UnmarshalXML by the idiom
-// for _, attr := range start.Attr { if attr.Name.Local == "c" { recv.F = ...attr.Value... } }.
-func c04AttrReads(fi *FuncInfo) map[string]string {
-	info := fi.Pkg.TypesInfo
-	recv := c03Receiver(fi)
-	out := map[string]string{}
-	ast.Inspect(fi.Decl.Body, func(n ast.Node) bool {
-		rs, ok := n.(*ast.RangeStmt)
-		if !ok || rs.Value == nil || c03SelPath(rs.X) != "Attr" || namedPath(info.TypeOf(rs.Value)) != "encoding/xml.Attr" {
-			return true
-		}
-		av := objOf(info, rs.Value)
-		ast.Inspect(rs.Body, func(m ast.Node) bool {
-			ifs, ok := m.(*ast.IfStmt)
-			if !ok {
-				return true
-			}
-			be, ok := ast.Unparen(ifs.Cond).(*ast.BinaryExpr)
-			if !ok || be.Op != token.EQL {
-				return true
-			}
-			x, y := be.X, be.Y
-			if _, isConst := constString(info, x); isConst {
-				x, y = y, x
-			}
-			v, isConst := constString(info, y)
-			if !isConst || rootObj(info, x) != av || c03SelPath(x) != "Name.Local" {
-				return true
-			}
-			for _, st := range ifs.Body.List {
-				if as, ok := st.(*ast.AssignStmt); ok && len(as.Lhs) == 1 && len(as.Rhs) == 1 {
-					if f := fieldOf(info, as.Lhs[0]); f != nil && rootObj(info, as.Lhs[0]) == recv && usesObj(info, as.Rhs[0], av) {
-						out[v] = f.Name()
-					}
-				}
-			}
-			return true
-		})
-		return true
-	})
-	return out
-}
-
-func c04X4(r *core.R) {
-	c03Init(r)
-	pk := c03OsmPkg(r.P)
-	info := pk.TypesInfo
-	ma := findFunc(pk, "Action.MarshalXML")
-	un := findFunc(pk, "(*Action).UnmarshalXML")
-	actNT, _ := structType(pk, "Action")
-	osmNT, _ := structType(pk, "OSM")
-	if ma == nil || un == nil || actNT == nil || osmNT == nil {
-		r.Anchor("osm.Action MarshalXML/UnmarshalXML")
-		return
-	}
-	// attributes
-	reads := c04AttrReads(un)
-	writes := c04AttrWrites(r, ma)
-	wmap := map[string]string{}
-	for _, w := range writes {
-		if !w.nameOK || w.value == nil {
-			continue
-		}
-		ast.Inspect(w.value, func(n ast.Node) bool {
-			if f := fieldOf(info, exprOf(n)); f != nil && rootObj(info, exprOf(n)) == c03Receiver(ma) {
-				wmap[w.name] = f.Name()
-			}
-			return true
-		})
-	}
-	names := map[string]bool{}
-	for k := range reads {
-		names[k] = true
-	}
-	for k := range wmap {
-		names[k] = true
-	}
-	if len(names) == 0 {
-		r.Bad("attr type@Action", ma.Decl.Pos(), "neither Action.MarshalXML nor Action.UnmarshalXML handles any attribute: the action type is lost")
-	}
-	for _, n := range c03SortedKeys(names) {
-		c := "attr " + n + "@Action"
-		switch {
-		case wmap[n] == "":
-			r.Bad(c, un.Decl.Pos(), "Action.UnmarshalXML reads attribute %q into Action.%s but Action.MarshalXML never writes it (it writes %v): after a round trip the field is empty", n, reads[n], c04Keys(wmap))
-		case reads[n] == "":
-			r.Bad(c, ma.Decl.Pos(), "Action.MarshalXML writes attribute %q from Action.%s but Action.UnmarshalXML never reads an attribute of that name (it reads %v): after a round trip Action.%s is empty", n, wmap[n], c04Keys(reads), wmap[n])
-		case reads[n] != wmap[n]:
-			r.Bad(c, ma.Decl.Pos(), "attribute %q is written from Action.%s but read into Action.%s", n, wmap[n], reads[n])
-		default:
-			r.OK(c, ma.Decl.Pos(), "written from and read into Action.%s", wmap[n])
-		}
-	}
-	// blocks old/new: wrapper calls in MarshalXML vs cases in UnmarshalXML
-	rd := c04ActionReads(r, un, actNT, osmNT)
-	type blk struct {
-		name, field string
-		pos         token.Pos
-	}
-	var wr []blk
-	for _, em := range c04Emitters(r.P) {
-		for _, ec := range c04EncCalls(em) {
-			if ec.method != "EncodeToken" {
-				continue
-			}
-			if sn := c03ResolveStart(em.fi, ec.call.Args[0]); sn.Kind == "param" {
-				for _, wc := range c04WrapperCalls(r.P, em, sn.Param) {
-					if wc.caller.Obj == ma.Obj && wc.nameOK && wc.field != nil {
-						if f := fieldOf(info, wc.field); f != nil {
-							wr = append(wr, blk{wc.name, f.Name(), wc.call.Pos()})
-						}
-					}
-				}
-			}
-		}
-	}
-	blocks := map[string]bool{}
-	for _, b := range wr {
-		blocks[b.name] = true
-	}
-	for p, l := range rd {
-		if !strings.HasPrefix(p, "OSM.") {
-			blocks[l] = true
-		}
-	}
-	for _, n := range c03SortedKeys(blocks) {
-		c := "block " + n + "@Action"
-		var w *blk
-		for i := range wr {
-			if wr[i].name == n {
-				w = &wr[i]
-			}
-		}
-		rfield := ""
-		for p, l := range rd {
-			if l == n && !strings.HasPrefix(p, "OSM.") {
-				rfield = strings.TrimPrefix(p, "!")
-			}
-		}
-		switch {
-		case w == nil:
-			r.Bad(c, un.Decl.Pos(), "Action.UnmarshalXML reads <%s> into Action.%s but Action.MarshalXML never writes such a block", n, rfield)
-		case rfield == "":
-			r.Bad(c, w.pos, "Action.MarshalXML writes Action.%s as <%s> but Action.UnmarshalXML has no case %q storing into a field: the block is lost", w.field, n, n)
-		case rfield != w.field:
-			r.Bad(c, w.pos, "<%s> is written from Action.%s but Action.UnmarshalXML stores it into Action.%s: old and new data change places (or one is lost) over a round trip", n, w.field, rfield)
-		default:
-			r.OK(c, w.pos, "<%s> written from and read into Action.%s", n, w.field)
-		}
-	}
-	// embedded element only when present
-	_, elems, _ := c04Roles(r)
-	if elems == nil {
-		return
-	}
-	par := parentsOf(r.P, ma)
-	found := false
-	for _, ic := range c04InnerCalls(r.P, ma) {
-		if ic.fn.Obj != elems.Obj {
-			continue
-		}
-		found = true
-		f := fieldOf(info, ic.recv)
-		guarded := false
-		for p := par[ast.Node(ic.call)]; p != nil; p = par[p] {
-			if ifs, ok := p.(*ast.IfStmt); ok && ifs.Body.Pos() <= ic.call.Pos() && ic.call.End() <= ifs.Body.End() && f != nil && c04NonEmptyTest(info, ifs.Cond, c03Receiver(ma), f) {
-				guarded = true
-			}
-		}
-		calleeChecks := c04NilChecksReceiver(elems)
-		switch {
-		case guarded:
-			r.OK("embedded@Action.MarshalXML", ic.call.Pos(), "`%s` runs only under a non-nil test of %s", src(r.P.Fset, ic.call), src(r.P.Fset, ic.recv))
-		case calleeChecks:
-			r.OK("embedded@Action.MarshalXML", ic.call.Pos(), "%s returns early on a nil receiver", elems.Name())
-		default:
-			r.Bad("embedded@Action.MarshalXML", ic.call.Pos(), "`%s` is called without a nil test of %s and %s dereferences its receiver: marshalling a modify/delete action (no directly embedded element) panics", src(r.P.Fset, ic.call), src(r.P.Fset, ic.recv), elems.Name())
-		}
-	}
-	if !found {
-		r.Bad("embedded@Action.MarshalXML", ma.Decl.Pos(), "Action.MarshalXML never writes the directly embedded element of a create action")
-	}
-}
-
-func exprOf(n ast.Node) ast.Expr {
-	e, _ := n.(ast.Expr)
-	if e == nil {
-		return &ast.BadExpr{}
-	}
-	return e
+	return true
 }
 
 func c04Keys(m map[string]string) []string {
@@ -1046,69 +172,9 @@ func c04Keys(m map[string]string) []string {
 	return out
 }
 
-// c04NilChecksReceiver: the first statement of the method is `if recv == nil { return ... }`.
-func c04NilChecksReceiver(fi *FuncInfo) bool {
-	if len(fi.Decl.Body.List) == 0 {
-		return false
+func c04MissPos(tr *c04Trace, fallback token.Pos) token.Pos {
+	if tr != nil && tr.path.Pos.IsValid() {
+		return tr.path.Pos
 	}
-	ifs, ok := fi.Decl.Body.List[0].(*ast.IfStmt)
-	if !ok {
-		return false
-	}
-	be, ok := ast.Unparen(ifs.Cond).(*ast.BinaryExpr)
-	if !ok || be.Op != token.EQL || objOf(fi.Pkg.TypesInfo, be.X) != c03Receiver(fi) {
-		return false
-	}
-	if id, ok := ast.Unparen(be.Y).(*ast.Ident); !ok || id.Name != "nil" {
-		return false
-	}
-	if len(ifs.Body.List) == 0 {
-		return false
-	}
-	_, isRet := ifs.Body.List[len(ifs.Body.List)-1].(*ast.ReturnStmt)
-	return isRet
-}
-
-// ---- X5 --------------------------------------------------------------------------------------
-
-func c04X5(r *core.R) {
-	c03Init(r)
-	c03DateLayout(r, "layout@Date")
-	pk := c03OsmPkg(r.P)
-	info := pk.TypesInfo
-	ma := findFunc(pk, "Date.MarshalXML")
-	un := findFunc(pk, "(*Date).UnmarshalXML")
-	if ma == nil || un == nil {
-		r.Anchor("osm.Date MarshalXML/UnmarshalXML")
-		return
-	}
-	c := "text@Date"
-	enc := c03EncoderParam(ma)
-	var wrote types.Type
-	var wpos token.Pos
-	nw := 0
-	if enc != nil {
-		for _, ec := range c04EncCalls(&c04Emitter{fi: ma, enc: enc}) {
-			if ec.method == "EncodeElement" || ec.method == "Encode" {
-				nw++
-				wrote, wpos = info.TypeOf(ec.call.Args[0]), ec.call.Pos()
-			}
-		}
-	}
-	dcs := c03DecodeCalls(info, un.Decl.Body)
-	switch {
-	case nw != 1 || len(dcs) != 1 || dcs[0].TObj == nil:
-		r.Unknown(c, ma.Decl.Pos(), "expected one EncodeElement in Date.MarshalXML and one DecodeElement in Date.UnmarshalXML, found %d and %d", nw, len(dcs))
-	default:
-		rt := c03Deref(dcs[0].TObj.Type())
-		isStr := func(t types.Type) bool {
-			b, ok := t.Underlying().(*types.Basic)
-			return ok && b.Info()&types.IsString != 0
-		}
-		if isStr(wrote) && isStr(rt) {
-			r.OK(c, wpos, "written as the character data of the handed element from a %s, decoded into a %s", c03Short(wrote), c03Short(rt))
-		} else {
-			r.Bad(c, wpos, "Date.MarshalXML encodes a %s but Date.UnmarshalXML decodes the element text into a %s and parses it with the layout: what is written is not the layout-formatted text that is read", c03Short(wrote), c03Short(rt))
-		}
-	}
+	return fallback
 }
